@@ -48,6 +48,17 @@ pub const TEMPLATES: &[(&str, &str, &str)] = &[
     ("res-unknown-table-column", "resolver", "from t | select {a, b} | select {⟦t.zz⟧}"),
     ("type-take-string", "resolver", "from t | take ⟦'x'⟧"),
     ("type-bad-join-side", "resolver", "from t | join side:⟦sideways⟧ u (==a)"),
+    // data errors of from_text: the offending text is somewhere in the call (its format argument, or the
+    // faulty line of the text) — with escapes / multi-byte characters in the literal, the text in a block,
+    // and the text delivered by a function / a constant (the call is shorter than the text it stands for;
+    // the literal that holds the data is a legitimate place to point at, so the region starts at the declaration)
+    ("res-from-text-bad-csv-escapes-and-2-byte-char", "resolver", "⟦from_text format:csv \"a,b\\n1,2,é\"⟧"),
+    ("res-from-text-bad-csv-many-escapes", "resolver", "⟦from_text format:csv \"a,b\\n\\t1,\\t2\\n\\u{e9},2,🐢\"⟧"),
+    ("res-from-text-bad-csv-block", "resolver", "⟦from_text format:csv \"\"\"\na,b\n1,2\n3,4,é\n\"\"\"⟧"),
+    ("res-from-text-bad-csv-default-format", "resolver", "⟦from_text \"\"\"\na,b\n3,4,é\n\"\"\"⟧"),
+    ("res-from-text-bad-json", "resolver", "⟦from_text format:json '[{\"a\": 1}, é]'⟧"),
+    ("res-from-text-bad-csv-through-function", "resolver", "⟦let mk = x -> \"a,b\\n1,2\\n1,2\\n1,2\\n1,2\\n1,2\\n1,2\\n1,2,3\"\nfrom_text format:csv (mk 1)⟧"),
+    ("res-from-text-bad-csv-through-let", "resolver", "⟦let txt = \"a,b\\n1,2,é\"\nfrom_text format:csv txt⟧"),
     ("sql-unsupported-fn", "sql", "prql target:sql.sqlite\nfrom t | select {x = (⟦a | date.to_text \"%Y\"⟧)}"),
     ("sql-take-negative", "sql", "from t | take ⟦(-1)..⟧"),
 ];
